@@ -94,7 +94,7 @@ def run(ctx, driver):
             {"read": 2.5}, {"connect": 1.5}, {"write": 3.5}, {"connect": None, "read": 2.5, "write": None}]
     for _ in range(4 if ctx.quick else 400):
         cfgs.append({k: v for k, v in ((k, rng.choice(vals)) for k in KEYS) if rng.random() < 0.8})
-    for kind in sweep.KINDS + ["direct-h1-interim"]:
+    for kind in sweep.KINDS + ["direct-h1-interim", "tunnel-ws"]:
         negotiation_kind = kind.startswith("socks5")
         for tcfg in cfgs:
             for rt in (("asyncio",) if ctx.quick else ("asyncio", "trio")):
